@@ -145,7 +145,14 @@ def one_dataset(obs, rng, conv, spec, force_kw=None):
         kw['bowtie'] = True
         kw['bounds'] = 'var'
         kw['nj'], kw['ni'] = int(rng.integers(3, 6)), int(rng.integers(3, 6))
-    model = make(rng, conv, **kw)
+    from ..model.grids import cell_scale
+    scale = 1.0
+    if not force_kw and chance(rng, 0.15):
+        scale = float(pick(rng, [1e-3, 5e-5]))          # a 100 m / 5 m model expressed in degrees
+        obs.cls('dataset:tiny-cells')
+        spec['cell_scale'] = scale
+    with cell_scale(scale):
+        model = make(rng, conv, **kw)
     spec['model'] = model.describe()
     if model.skip_cells:
         obs.cls('dataset-with-degenerate-derived-cells-not-asserted')
